@@ -8,12 +8,45 @@ From Norad.Proofs Require Import FsP RequestP.
 Open Scope string_scope.
 Open Scope list_scope.
 
-(** For every request (six switches, any layer filter), every target and every file system in
-    which the layer directories are plain names: if the full load succeeds, the partial load
-    succeeds and returns the full load restricted to the request. *)
+(** ** The full statement, and why the code as it is does not meet it (finding F23) *)
+
+(** "For every request and every UFO: if the full load succeeds, the partial load succeeds and
+    returns the full load restricted to the request." *)
+Definition C17_full : Prop :=
+  ∀ (r : request) (t : path) (m : lfs) (f : lfont),
+    val (load req_all t) m = inr f → val (load r t) m = inr (restrict r f).
+
+(** The full load recognises the default layer by the LAST component of its directory, the
+    default-layer-only filter by comparing the path AS WRITTEN with [glyphs]: a UFO whose
+    layercontents.plist says [./glyphs] loads completely, but the default-only load fails. *)
+Definition f23_fs : lfs :=
+  list_to_map
+    [([], Dir); (["u"], Dir); (["u"; "metainfo.plist"], File (LMeta 3 1));
+     (["u"; "layercontents.plist"], File (LLayerContents [("public.default", [CurDir; Normal "glyphs"])]));
+     (["u"; "glyphs"], Dir); (["u"; "glyphs"; "contents.plist"], File (LContents []))].
+Definition f23_req : request := Request false false false false false false (LFilter false true None).
+Theorem C17_refuted_F23 : ¬ C17_full.
+Proof.
+  intros H.
+  assert (E : ∃ f, val (load req_all ["u"]) f23_fs = inr f) by (eexists; vm_compute; reflexivity).
+  destruct E as [f E]. specialize (H f23_req ["u"] f23_fs f E).
+  assert (E2 : val (load f23_req ["u"]) f23_fs = inl MissingDefaultLayer) by (vm_compute; reflexivity).
+  rewrite E2 in H. discriminate H.
+Qed.
+Theorem C17_F23_in_class : KnownClass_F23 f23_fs ["u"].
+Proof. intros H%default_plainb_spec. vm_compute in H. discriminate. Qed.
+(** the class is decidable; outside it every default layer directory is written plainly *)
+Theorem C17_class_decidable : ∀ m t, default_plain m t ∨ KnownClass_F23 m t.
+Proof. exact F23_decidable. Qed.
+
+(** ** Outside the class *)
+
+(** For every request (six switches, any layer filter), every target and every file system
+    outside the class: if the full load succeeds, the partial load succeeds and returns the full
+    load restricted to the request. *)
 Theorem C17_restrict :
   ∀ (r : request) (t : path) (m : lfs) (f : lfont),
-    plain_layers m t → val (load req_all t) m = inr f → val (load r t) m = inr (restrict r f).
+    default_plain m t → val (load req_all t) m = inr f → val (load r t) m = inr (restrict r f).
 Proof. exact load_restrict. Qed.
 
 (** The default layer is always present and first ... *)
@@ -102,7 +135,7 @@ Proof.
   split; [eexists; split; vm_compute; reflexivity|].
   split; vm_compute; reflexivity.
 Qed.
-Example C17_example_wf : wf_ufo ex17_fs ["u"] ∧ plain_layers ex17_fs ["u"].
+Example C17_example_wf : wf_ufo ex17_fs ["u"] ∧ default_plain ex17_fs ["u"].
 Proof.
   assert (E : layer_entries_of ex17_fs ["u"] = [("bg", [Normal "glyphs.bg"]); ("public.default", [Normal "glyphs"])])
     by (vm_compute; reflexivity).
@@ -116,5 +149,5 @@ Proof.
         assert (glif_entries_of ex17_fs (["u"] ++ ["glyphs"]) = [("a", [Normal "a.glif"]); ("b", [Normal "b.glif"])]) as -> by (vm_compute; reflexivity).
         constructor; [by eexists|]. constructor; [by eexists|constructor].
     + apply (bool_decide_unpack _). vm_compute. exact I.
-  - unfold plain_layers. rewrite E. constructor; [by eexists|]. constructor; [by eexists|constructor].
+  - apply default_plainb_spec. vm_compute. reflexivity.
 Qed.
